@@ -2,7 +2,7 @@
 # seed2_try.sh <pid> [tier] : run the property's check against both round-2 seeds
 PID="$1"
 for x in a b; do
-  D=/tmp/seed2-$PID-out/$x
+  D=/tmp/seed${ROUND:-2}-$PID-out/$x
   [ -d "$D" ] || continue
   echo "=== $PID/$x"
   /verif/tools/try_seed.sh "$PID" "$D/patch.diff" "${2:-quick}" 2>&1 | head -6
